@@ -73,6 +73,64 @@ def whole_mirs(res, tier):
     return stats
 
 
+def same_basename_sequences(res, tier):
+    """Programs stored under one file name in different directories (every project's `main.py`), with different texts and
+    line layouts, compiled one after the other in one new interpreter: each MIR's references must delimit lines of *its own*
+    file, whose text — not an earlier file's — is the one embedded."""
+    import json
+    import os
+    import shutil
+    import subprocess
+    import sys
+    import tempfile
+    from ..gen import programs, render
+    from ..oracle import srcref
+    n = 4 if tier == "quick" else 40
+    srcs, idx = [], 0
+    while len(srcs) < n + 1 and idx < 10 * n:
+        m, _ = programs.generate("C19sb", idx, max_cmds=14)
+        idx += 1
+        src = render.render(m.events, m.results)
+        if src is not None and src not in srcs:
+            srcs.append(src)
+    reset_globals()
+    stats = {"sequences": 0, "mirs": 0}
+    tmp = tempfile.mkdtemp(prefix="nvc19sb")
+    try:
+        for i in range(max(0, len(srcs) - 1)):
+            a = srcs[i]
+            texts = [a, "# revised layout\n\n\n" + srcs[i + 1], "\n" * 2 + a.replace("\n\n", "\n\n\n", 1)]
+            paths = []
+            for k, text in enumerate(texts):
+                os.makedirs(os.path.join(tmp, f"s{i}", f"v{k}"), exist_ok=True)
+                path = os.path.join(tmp, f"s{i}", f"v{k}", "main.py")
+                with open(path, "w", encoding="utf-8") as f:
+                    f.write(text)
+                paths.append(path)
+            env = dict(os.environ, PYTHONPATH=core.REPO + os.pathsep + os.path.join(core.VERIF, "harness"), PYTHONDONTWRITEBYTECODE="1")
+            p = subprocess.run([sys.executable, "-m", "nv.real.fresh_hist", "script"] + paths, cwd=tmp, env=env, capture_output=True,
+                               text=True, timeout=300)
+            try:
+                outs = json.loads(p.stdout)
+            except ValueError:
+                raise core.Infra(f"fresh_hist failed: {(p.stderr or p.stdout)[-300:]}")
+            stats["sequences"] += 1
+            for k, (o, text) in enumerate(zip(outs, texts)):
+                if "mir" not in o:
+                    continue
+                stats["mirs"] += 1
+                mir = o["mir"]
+                bad = srcref.check(mir, {"main.py": text}, {}, {})[:2]
+                if mir.get("source_files", {}).get("main.py") not in (None, text):
+                    bad.insert(0, ("stale-text", "the embedded text of main.py is not the text of the file that was compiled"))
+                for kind, t in bad:
+                    res.violation({"property": "C19", "kind": "same-name-" + kind, "text": t, "texts": texts, "position": k},
+                                  f"v{k}/main.py, compiled after {k} other file(s) named main.py in one process: {t}"[:400])
+    finally:
+        shutil.rmtree(tmp, ignore_errors=True)
+    return stats
+
+
 def run(res, tier):
     evals, nontrivial = 0, set()
     samples = []
@@ -114,6 +172,7 @@ def run(res, tier):
     # 2b. whole MIRs: generated programs compiled from files through compile_script, several programs per process
     #     sharing modules (K10 rendering); every element of every MIR is checked against the program text
     mir_stats = whole_mirs(res, tier)
+    sb_stats = same_basename_sequences(res, tier)
     evals += mir_stats["elements_checked"]
     reset_globals()
     # 3. line arithmetic: model (Lean lineInfo) vs real try_get_line_info on random texts, and the
@@ -157,6 +216,7 @@ def run(res, tier):
                 "process; random texts (incl. form feeds, Unicode separators, tabs, non-ASCII) x line numbers (first, last, beyond) "
                 "through try_get_line_info vs the Lean lineInfo; non-trivial = distinct entries / (text, existing line) pairs",
         "whole_mirs": mir_stats,
+        "same_file_name_sequences": sb_stats,
         "catalogue_entries": len(rows), "call_sites_unreached": len(unreached), "lineinfo_disagreements": len(diffs),
         "samples": samples,
     })
@@ -182,6 +242,33 @@ def replay(obj):
             if "raw" in o:
                 bad += srcref.check(o["raw"], dict(files), op_lines, per_prog[fn])
         print(bad[:4] or "ok")
+        if bad:
+            print("VIOLATION property=C19 replay=(replayed)")
+        return 1 if bad else 0
+    if obj.get("kind", "").startswith("same-name-"):
+        import json
+        import subprocess
+        import sys
+        from ..oracle import srcref
+        tmp = tempfile.mkdtemp(prefix="nvc19r")
+        bad = []
+        try:
+            paths = []
+            for k, text in enumerate(obj["texts"]):
+                os.makedirs(os.path.join(tmp, f"v{k}"), exist_ok=True)
+                with open(os.path.join(tmp, f"v{k}", "main.py"), "w", encoding="utf-8") as f:
+                    f.write(text)
+                paths.append(os.path.join(tmp, f"v{k}", "main.py"))
+            env = dict(os.environ, PYTHONPATH=core.REPO + os.pathsep + os.path.join(core.VERIF, "harness"), PYTHONDONTWRITEBYTECODE="1")
+            p = subprocess.run([sys.executable, "-m", "nv.real.fresh_hist", "script"] + paths, cwd=tmp, env=env, capture_output=True, text=True, timeout=300)
+            for o, text in zip(json.loads(p.stdout), obj["texts"]):
+                if "mir" in o:
+                    bad += srcref.check(o["mir"], {"main.py": text}, {}, {})[:2]
+                    if o["mir"].get("source_files", {}).get("main.py") not in (None, text):
+                        bad.append(("stale-text", "embedded text differs from the compiled file"))
+        finally:
+            shutil.rmtree(tmp, ignore_errors=True)
+        print(bad[:3] or "ok")
         if bad:
             print("VIOLATION property=C19 replay=(replayed)")
         return 1 if bad else 0
